@@ -1,4 +1,5 @@
 import CwMt.Driver.Kv
+import CwMt.Driver.Wasm
 /-
   cwmt-driver <slice> : reads ops lines on stdin, answers one line per op on stdout.
   `case <id>` resets the slice state and is echoed.
@@ -12,7 +13,8 @@ structure Slice where
 
 def slices : List (String × Slice) :=
   [ ("overlay", { σ := Stack, init := .root [], step := stepOverlay }),
-    ("views", { σ := Store Val, init := [], step := stepViews }) ]
+    ("views", { σ := Store Val, init := [], step := stepViews }),
+    ("wasm", { σ := WState, init := {}, step := fun st toks => stepWasm st (" ".intercalate toks) }) ]
 
 partial def loop (sl : Slice) (h : IO.FS.Stream) (out : IO.FS.Stream) (st : sl.σ) : IO Unit := do
   let line ← h.getLine
